@@ -251,6 +251,86 @@ v("C17", "constructor-one-nil", "intercept.go",
   "func InterceptClientConn(ch grpc.ClientConnInterface, unaryInt grpc.UnaryClientInterceptor, streamInt grpc.StreamClientInterceptor) grpc.ClientConnInterface {\n\tif unaryInt == nil && streamInt == nil {",
   "func InterceptClientConn(ch grpc.ClientConnInterface, unaryInt grpc.UnaryClientInterceptor, streamInt grpc.StreamClientInterceptor) grpc.ClientConnInterface {\n\tif unaryInt == nil || streamInt == nil {", "R3", "identity", "stream interceptor dropped when unary one is nil")
 
+# ------------------------------------------------------------------ C13
+v("C13", "d11-request-tls", "httpgrpc/client.go",
+  "copts.SetPeer(getPeer(ch.BaseURL, reply.TLS))", "copts.SetPeer(getPeer(ch.BaseURL, r.TLS))", "R3", "peer-tls", "pre-fix D11")
+v("C13", "peer-nil-tls", "httpgrpc/client.go",
+  "cs.copts.SetPeer(getPeer(cs.baseUrl, reply.TLS))", "cs.copts.SetPeer(getPeer(cs.baseUrl, nil))", "R3", "peer-tls", "stream peer without TLS info")
+v("C13", "secure-const-true", "httpgrpc/client.go",
+  """	ctx, err := internal.ApplyPerRPCCreds(ctx, copts, reqUrlStr, reqUrl.Scheme == "https")
+	if err != nil {
+		return nil, err
+	}""", """	ctx, err := internal.ApplyPerRPCCreds(ctx, copts, reqUrlStr, true)
+	if err != nil {
+		return nil, err
+	}""", "R1", "secure-arg", "streaming calls always claim a secure transport")
+v("C13", "secure-on-base-url", "httpgrpc/client.go",
+  """	ctx, err := internal.ApplyPerRPCCreds(ctx, copts, reqUrlStr, reqUrl.Scheme == "https")
+	if err != nil {
+		return err
+	}""", """	ctx, err := internal.ApplyPerRPCCreds(ctx, copts, reqUrlStr, reqUrl.Scheme != "http")
+	if err != nil {
+		return err
+	}""", "R1", "secure-arg", "any scheme other than http counts as secure")
+v("C13", "creds-error-ignored", "httpgrpc/client.go",
+  """	ctx, err := internal.ApplyPerRPCCreds(ctx, copts, reqUrlStr, reqUrl.Scheme == "https")
+	if err != nil {
+		return nil, err
+	}
+
+	ctx, cancel := context.WithCancel(ctx)""", """	credCtx, err := internal.ApplyPerRPCCreds(ctx, copts, reqUrlStr, reqUrl.Scheme == "https")
+	if err == nil {
+		ctx = credCtx
+	}
+
+	ctx, cancel := context.WithCancel(ctx)""", "R1", "creds-before-io", "stream request issued although the credentials step refused")
+v("C13", "require-check-inverted", "internal/call_options.go",
+  "if copts.Creds.RequireTransportSecurity() && !isChannelSecure {", "if !copts.Creds.RequireTransportSecurity() && !isChannelSecure {", "R1", "query-only-if-allowed", "security requirement inverted")
+v("C13", "merge-replaces-caller-md", "internal/call_options.go",
+  "reqHeaders = metadata.Join(reqHeaders, metadata.New(md))", "reqHeaders = metadata.New(md)", "R2", "join-caller-first", "credential metadata replaces the caller's")
+v("C13", "merge-creds-first", "internal/call_options.go",
+  "reqHeaders = metadata.Join(reqHeaders, metadata.New(md))", "reqHeaders = metadata.Join(metadata.New(md), reqHeaders)", "R2", "join-caller-first", "credential values come before the caller's for shared keys")
+v("C13", "headers-from-pre-creds-ctx", "httpgrpc/client.go",
+  """	ctx, err := internal.ApplyPerRPCCreds(ctx, copts, reqUrlStr, reqUrl.Scheme == "https")
+	if err != nil {
+		return err
+	}
+	h := headersFromContext(ctx)""", """	credCtx, err := internal.ApplyPerRPCCreds(ctx, copts, reqUrlStr, reqUrl.Scheme == "https")
+	if err != nil {
+		return err
+	}
+	_ = credCtx
+	h := headersFromContext(ctx)""", "R2", "metadata-from-creds-ctx", "credential metadata never sent on unary calls")
+v("C13", "server-no-peer-stream", "httpgrpc/server.go",
+  """		ctx := r.Context()
+		if p := peerFromRequest(r); p != nil {
+			ctx = peer.NewContext(ctx, p)
+		}
+		defer drainAndClose(r.Body)
+		if r.Method != "POST" {
+			w.Header().Set("Allow", "POST")
+			writeError(w, http.StatusMethodNotAllowed)
+			return
+		}
+
+		contentType := r.Header.Get("Content-Type")
+		codec := getStreamingCodec(contentType)""", """		ctx := r.Context()
+		defer drainAndClose(r.Body)
+		if r.Method != "POST" {
+			w.Header().Set("Allow", "POST")
+			writeError(w, http.StatusMethodNotAllowed)
+			return
+		}
+
+		contentType := r.Header.Get("Content-Type")
+		codec := getStreamingCodec(contentType)""", "R3", "peer-attached", "streaming handlers see no peer")
+v("C13", "server-authinfo-always-nil", "httpgrpc/server.go",
+  """	if r.TLS != nil {
+		pr.AuthInfo = credentials.TLSInfo{State: *r.TLS}
+	}
+	return &pr""", """	_ = credentials.TLSInfo{}
+	return &pr""", "R3", "authinfo", "server peer never reports TLS")
+
 
 def main():
     if os.path.isdir(OUT):
